@@ -3,6 +3,7 @@ import XPathV.Lemmas.PullProofs
 import XPathV.Model.Api
 import XPathV.Lemmas.Facts
 import XPathV.Lemmas.FlatFiltered
+import XPathV.Lemmas.FlatFiltered2
 import XPathV.Lemmas.Pull2Proofs
 import XPathV.Lemmas.Pull2Gen
 /-!
@@ -209,5 +210,57 @@ theorem C12_all_iterators_refine_sequence_any_predicate {F : Type} [NumAlg F] (d
   drain2_eq_sel' d cfg dec hd p q h hs c hdec hg
 
 end AnyPredicate
+
+end XPathV.Theorems.C12
+
+/-! ## Flat paths with the predicates of the whole C02 fragment (`PredSem2.Frag2`, `Lemmas/FlatFiltered2`) -/
+namespace XPathV.Theorems.C12
+open XPathV XPathV.Model XPathV.Facts NumAlg
+open XPathV.PathSem XPathV.PredSem XPathV.PredSem2 XPathV.FlatFiltered XPathV.FlatFiltered2
+
+variable {F : Type} [NumAlg F]
+
+/-- **`C12_flat_filtered_is_oracle_list` lifted to the whole C02 fragment**: a flat path (child,
+attribute and self steps from the context node or the root: `FlatAny p`) whose predicates are in
+`Frag2 false` (`Frag2 true p`; besides those of `Frag`: `count(P) op n`, `not(count(P))`, the string
+tests, `local-name(…) = 'lit'`, path `op` path, path `op` string literal) — equivalently
+`FlatFrag2 p` (`FlatFiltered2.flatFrag2_iff`) — is built into a plan that succeeds from every valid
+context node; its *sequence* is strictly increasing in document order, repeats no node, and is the
+oracle's document-ordered list, element by element -/
+theorem C12_flat_filtered_is_oracle_list_full {d : Doc} (wf : WF d) (cfg : ECfg) (hns : cfg.nsIface = true)
+    (hinj : HashInj d cfg) (regexOk : RegexOk) (limit : Nat) (p : Ast) (hp : Frag2 true p) (hflat : FlatAny p)
+    (st : BState) (o : BOut)
+    (hb : build regexOk limit true false p {} st = .ok o) (c : Ref) (hc : validRef d c = true) :
+    ∃ l ns g, sel (F := F) d cfg o.q c = .ok l ∧
+      (refs l).Pairwise (fun a b => Ref.lt a b = true) ∧ (refs l).Nodup ∧
+      Spec.eval (F := F) d p ⟨c, 1, 1⟩ = .ok (.val (.nodes ns) g) ∧
+      (∀ x, x ∈ refs l ↔ x ∈ ns) ∧ refs l = ns :=
+  flatFrag2_main wf cfg hns hinj regexOk limit p hp hflat st o hb c hc
+
+/-- `C12_flat_filtered_is_oracle_list_full` without the `HashInj` hypothesis (`hashInj_holds`; the side
+condition left is "no element has two attributes with the same prefix, name and value") -/
+theorem C12_flat_filtered_is_oracle_list_full_unconditional {d : Doc} (wf : WF d) (cfg : ECfg)
+    (hns : cfg.nsIface = true) (hattr : AttrTriplesDistinct d) (regexOk : RegexOk) (limit : Nat) (p : Ast)
+    (hp : Frag2 true p) (hflat : FlatAny p) (st : BState) (o : BOut)
+    (hb : build regexOk limit true false p {} st = .ok o) (c : Ref) (hc : validRef d c = true) :
+    ∃ l ns g, sel (F := F) d cfg o.q c = .ok l ∧
+      (refs l).Pairwise (fun a b => Ref.lt a b = true) ∧ (refs l).Nodup ∧
+      Spec.eval (F := F) d p ⟨c, 1, 1⟩ = .ok (.val (.nodes ns) g) ∧
+      (∀ x, x ∈ refs l ↔ x ∈ ns) ∧ refs l = ns :=
+  C12_flat_filtered_is_oracle_list_full wf cfg hns (PathSem.hashInj_holds wf hattr cfg) regexOk limit p
+    hp hflat st o hb c hc
+
+/-- the statement for the inductive fragment `FlatFrag2` (same shape as `FlatFrag`, predicates in
+`Frag2 false`); `C12_flat_filtered_is_oracle_list` is its restriction to `FlatFrag`
+(`FlatFiltered2.flatFrag2_of_flatFrag`) -/
+theorem C12_flat_filtered_is_oracle_list_full_fragment {d : Doc} (wf : WF d) (cfg : ECfg)
+    (hns : cfg.nsIface = true) (hinj : HashInj d cfg) (regexOk : RegexOk) (limit : Nat) (p : Ast)
+    (hp : FlatFrag2 p) (st : BState) (o : BOut)
+    (hb : build regexOk limit true false p {} st = .ok o) (c : Ref) (hc : validRef d c = true) :
+    ∃ l ns g, sel (F := F) d cfg o.q c = .ok l ∧
+      (refs l).Pairwise (fun a b => Ref.lt a b = true) ∧ (refs l).Nodup ∧
+      Spec.eval (F := F) d p ⟨c, 1, 1⟩ = .ok (.val (.nodes ns) g) ∧
+      (∀ x, x ∈ refs l ↔ x ∈ ns) ∧ refs l = ns :=
+  C12_flat_filtered_is_oracle_list_full wf cfg hns hinj regexOk limit p hp.frag2 hp.flatAny st o hb c hc
 
 end XPathV.Theorems.C12
